@@ -234,6 +234,19 @@ fixed("C17", "C17:8bit-csi-kept", "e2d1c23",
       [{"pieces": [["e", "\x9b31m"], ["t", "foo"], ["e", "\x9b0m"]], "exact": True},
        {"pieces": [["t", "a"], ["e", "\x9b2J"], ["t", "b"]], "exact": True}])
 
+fixed("C04", "C04:negative-row-read", "2d9907c",
+      "a[-k] raised IndexError for every array (sign error when resolving a negative row index)",
+      [{"shape": [2, 3], "steps": [{"form": "slice2d", "r0": 0, "r1": 2, "c0": 0, "c1": 3, "block": ["abc", "def"]}]}])
+fixed("C04", "C04:open-or-negative-row-bounds", "d61966a",
+      "a[:, c0:c1] = block / a[r0:] = block / a[-1, c] = x resolved the rows against sys.maxsize and tried to grow the "
+      "array to ~9e18 rows (ran until memory was exhausted)",
+      [{"shape": [3, 4], "steps": [{"form": "slice2d", "r0": 0, "r1": 3, "c0": 0, "c1": 2, "block": ["ab", "cd", "ef"],
+                                    "rows_as": "open_both", "witness": True}]},
+       {"shape": [3, 4], "steps": [{"form": "int2d", "r0": 2, "r1": 3, "c0": 1, "c1": 2, "block": ["X"],
+                                    "rows_as": "neg", "witness": True}]},
+       {"shape": [2, 2], "steps": [{"form": "rowslice", "r0": 1, "r1": 2, "c0": 0, "c1": 2, "block": ["zz"],
+                                    "rows_as": "open_stop", "witness": True}]}])
+
 known("C03", "C03:prefix-then-undecodable-byte",
       "get_key raises UnicodeDecodeError for a table-sequence prefix (e.g. ESC) followed by a byte >= 0x80 "
       "that does not decode: ESC + any 8-bit byte under ascii, ESC + a UTF-8 lead/continuation byte under utf-8",
